@@ -107,6 +107,10 @@ pub const GEN_PRESETS: &[(usize, u8, fn() -> GenGeom)] = &[
     (8, 2, || GenGeom { rsvd: 2, fat1: 1, ..Default::default() }),
     (12, 2, || GenGeom { rsvd: 32, fat1: 3, ..Default::default() }),
     (9, 1, || GenGeom { rsvd: 4, fat1: 2, eoc: 1, ..Default::default() }),
+    // boot sectors without the 0x29 extended boot signature (older formatters): the status byte is still there
+    (1, 2, || GenGeom { rsvd: 1, ext_sig: 0x28, ..Default::default() }),
+    (8, 2, || GenGeom { rsvd: 4, ext_sig: 0x28, ..Default::default() }),
+    (12, 2, || GenGeom { rsvd: 32, ext_sig: 0x01, ..Default::default() }),
 ];
 
 /// (FAT width, cluster count, sectors per cluster)
